@@ -272,7 +272,7 @@ func Build(opt Options) (*Report, error) {
 			}
 			// R7: the communication of a select case is handled with its select statement, not on its own
 			inComm := map[ast.Node]bool{}
-			twoValue := map[ast.Node]bool{} // receive expressions whose second result is used
+			twoValue := map[ast.Node]bool{}             // receive expressions whose second result is used
 			selStart := map[*ast.SelectStmt]token.Pos{} // where the outermost label of a labelled select starts
 			ast.Inspect(d, func(n ast.Node) bool {
 				switch x := n.(type) {
@@ -881,8 +881,9 @@ type verifCond struct {
 	L    sync.Locker
 	once sync.Once
 	c    *sync.Cond
-	gen  uint64
 	mu   sync.Mutex
+	next uint64 // ticket of the next waiter (as in the runtime's notify list)
+	upto uint64 // waiters with a ticket below this one have been notified
 }
 
 func verifNewCond(l sync.Locker) *verifCond { return &verifCond{L: l} }
@@ -900,35 +901,58 @@ func (c *verifCond) Wait() {
 	}
 	key := uintptr(unsafe.Pointer(c)) | 1
 	c.mu.Lock()
-	g := c.gen
+	t := c.next
+	c.next++
 	c.mu.Unlock()
 	c.L.Unlock()
 	for {
 		c.mu.Lock()
-		now := c.gen
+		woken := t < c.upto
 		c.mu.Unlock()
-		if now != g {
+		if woken {
 			break
 		}
 		if !h.Blocked(key) {
-			time.Sleep(50 * time.Microsecond)
+			// nobody the scheduler knows can help: wait for real (Signal and Broadcast also reach the real one)
+			c.L.Lock()
+			c.mu.Lock()
+			woken = t < c.upto
+			c.mu.Unlock()
+			if woken {
+				return
+			}
+			c.real().Wait()
+			c.L.Unlock()
 		}
 	}
 	c.L.Lock()
 }
 
-func (c *verifCond) wake() {
+// Signal wakes exactly one waiter, the one that has waited longest - what sync.Cond does (its notify list hands
+// out tickets in arrival order). Code that needs Broadcast and says Signal loses a wake-up here as it does there.
+func (c *verifCond) Signal() {
 	c.mu.Lock()
-	c.gen++
+	if c.upto < c.next {
+		c.upto++
+	}
+	c.mu.Unlock()
+	if h := VerifLock; h != nil {
+		h.Released(uintptr(unsafe.Pointer(c)) | 1)
+		c.real().Broadcast() // (a waiter that blocks for real re-checks its ticket)
+		return
+	}
+	c.real().Signal()
+}
+
+func (c *verifCond) Broadcast() {
+	c.mu.Lock()
+	c.upto = c.next
 	c.mu.Unlock()
 	if h := VerifLock; h != nil {
 		h.Released(uintptr(unsafe.Pointer(c)) | 1)
 	}
+	c.real().Broadcast()
 }
-
-// (Signal wakes every waiter: a spurious wake-up is allowed by sync.Cond's contract, callers re-check in a loop)
-func (c *verifCond) Signal()    { c.wake(); c.real().Signal() }
-func (c *verifCond) Broadcast() { c.wake(); c.real().Broadcast() }
 
 type verifWaitGroup struct {
 	wg sync.WaitGroup
